@@ -484,6 +484,46 @@ theorem c08_disabled_agents_consulted (cfg : Cfg) (H : Hashes) (s : State) (p : 
       left; rw [he]
     · right; left; exact ⟨h.1, h.2.1⟩
 
+/-- "Agents are always consulted", both of them: with the breaker disabled, a request that is not answered by the
+    cache (and whose prompt can be encoded for the cache key) consults the executor, and — unless the executor
+    raised — the assessor as well; an executor exception ends the request before the assessor is asked. -/
+theorem c08_disabled_both_agents_consulted (cfg : Cfg) (H : Hashes) (s : State) (p : Prompt) (zr yr : Resp)
+    (hoff : cfg.breakerOn = false) (hk : (run cfg H s p zr yr).2.kind ≠ .cacheHit)
+    (henc : cfg.cacheOn = true → p.enc = true) :
+    (run cfg H s p zr yr).1.execCalls = s.execCalls + 1 ∧
+    (zr = .exc → (run cfg H s p zr yr).1.assessCalls = s.assessCalls) ∧
+    (∀ z, zr = .ret z → (run cfg H s p zr yr).1.assessCalls = s.assessCalls + 1) := by
+  have hcons : ∀ s1 : State, (consult cfg H s1 p zr yr).1.execCalls = s1.execCalls + 1 ∧
+      (zr = .exc → (consult cfg H s1 p zr yr).1.assessCalls = s1.assessCalls) ∧
+      (∀ z, zr = .ret z → (consult cfg H s1 p zr yr).1.assessCalls = s1.assessCalls + 1) := by
+    intro s1
+    unfold consult
+    cases zr with
+    | exc => simp [callExecutor]
+    | ret z =>
+      cases yr with
+      | exc => simp [callExecutor, callAssessor]
+      | ret y => cases hp : p.enc <;> cases hc : cfg.cacheOn <;> simp [callExecutor, callAssessor]
+  have hrun : run cfg H s p zr yr = afterCircuit cfg H s p zr yr := by unfold run; simp [hoff]
+  rw [hrun] at hk ⊢
+  revert hk
+  unfold afterCircuit
+  cases hc : cfg.cacheOn
+  · intro _; exact hcons s
+  · have hp := henc hc
+    simp only [hp, ↓reduceIte]
+    have hcf := checkCache_fst cfg H s p
+    generalize checkCache cfg H s p = ck at hcf
+    obtain ⟨s1, o⟩ := ck
+    cases o with
+    | some r => intro hk; simp at hk
+    | none =>
+      intro _
+      simp only at hcf ⊢
+      have := hcons s1
+      rw [hcf.2.2.1, hcf.2.2.2.1] at this
+      exact this
+
 /-- Manual reset closes the breaker and clears the failure count (nothing else changes); by
     `c08_never_open_before_threshold` it then takes `threshold` new failures to open it again. -/
 theorem c08_reset (cfg : Cfg) (H : Hashes) (s : State) :
